@@ -243,11 +243,30 @@ class DFA:
     def accepts(self, s: str) -> bool:
         q = 0
         for ch in s:
-            q = self.trans[q][ch if ch in SIGMA else OTHER]
+            q = self.trans[q].get(ch if ch in SIGMA else OTHER, -1)
+            if q < 0:
+                return False
         return q in self.accepting
 
 
+class Lang(R):
+    """A language given directly by a DFA (only valid at top level)."""
+
+    def __init__(self, dfa: "DFA"):
+        self.dfa = dfa
+
+
+def nonempty(r: R) -> R:
+    """L(r) without the empty word."""
+    d = to_dfa(r)
+    trans = [dict(d.trans[0])] + [dict(row) for row in d.trans]
+    trans = [{ch: q + 1 for ch, q in row.items() if q >= 0} for row in trans]
+    return Lang(DFA(trans, {q + 1 for q in d.accepting}))
+
+
 def to_dfa(r: R) -> DFA:
+    if isinstance(r, Lang):
+        return r.dfa
     nfa = NFA()
     _build(nfa, r, nfa.start, nfa.accept)
 
@@ -278,14 +297,14 @@ def to_dfa(r: R) -> DFA:
                 for ch in chars:
                     moves.setdefault(ch, set()).add(dst)
         cache: T.Dict[T.FrozenSet[int], int] = {}
-        for ch in SIGMA:
-            tgt = frozenset(moves.get(ch, ()))
+        for ch, tset in moves.items():
+            tgt = frozenset(tset)
             if tgt not in cache:
                 cl = closure(tgt)
                 if cl not in index:
                     index[cl] = len(order)
                     order.append(cl)
-                    if len(order) > 200000:
+                    if len(order) > 400000:
                         raise UnsupportedRegex("DFA too large")
                 cache[tgt] = index[cl]
             row[ch] = cache[tgt]
@@ -302,7 +321,7 @@ _SYMS = _order_symbols()
 
 
 def difference_witness(a: DFA, b: DFA) -> T.Optional[str]:
-    """Shortest string in L(a) \\ L(b), or None if L(a) ⊆ L(b)."""
+    """Shortest string in L(a) \\ L(b), or None if L(a) ⊆ L(b).  State -1 is the dead sink."""
     start = (0, 0)
     seen = {start}
     queue: T.List[T.Tuple[T.Tuple[int, int], str]] = [(start, "")]
@@ -312,9 +331,13 @@ def difference_witness(a: DFA, b: DFA) -> T.Optional[str]:
         head += 1
         if qa in a.accepting and qb not in b.accepting:
             return w
-        ra, rb = a.trans[qa], b.trans[qb]
+        ra = a.trans[qa]
+        rb = b.trans[qb] if qb >= 0 else {}
         for ch in _SYMS:
-            nxt = (ra[ch], rb[ch])
+            na = ra.get(ch, -1)
+            if na < 0:
+                continue
+            nxt = (na, rb.get(ch, -1))
             if nxt not in seen:
                 seen.add(nxt)
                 queue.append((nxt, w + ch))
@@ -340,7 +363,8 @@ def _live_states(d: DFA) -> T.Set[int]:
     rev: T.Dict[int, T.Set[int]] = {}
     for q, row in enumerate(d.trans):
         for dst in set(row.values()):
-            rev.setdefault(dst, set()).add(q)
+            if dst >= 0:
+                rev.setdefault(dst, set()).add(q)
     live = set(d.accepting)
     stack = list(live)
     while stack:
@@ -369,7 +393,7 @@ def enumerate_language(r: R, max_len: int = 8, limit: int = 20000) -> T.Tuple[T.
                     return out, False
             row = d.trans[q]
             for ch in _SYMS:
-                t = row[ch]
+                t = row.get(ch, -1)
                 if t in live:
                     nxt.append((t, w + ch))
         frontier = nxt
